@@ -50,14 +50,19 @@ def run(ctx):
     import random
     ok = ctx.build(['MPyC.Exec']) and ctx.check_props()
     rng = ctx.rng
-    configs = [(1, 0), (2, 0), (3, 1), (4, 1), (5, 2)] + ([(7, 3), (5, 1), (6, 2)] if ctx.tier == 'thorough' else [])
+    configs = [(1, 0, None), (2, 0, None), (3, 1, None), (4, 1, None), (5, 2, None)] + (
+        [(7, 3, None), (5, 1, None), (6, 2, None)] if ctx.tier == 'thorough' else [])
+    # (m, t, t0) with t0 not None: the runtime comes up with threshold t0, the PRSS functions for the field orders used
+    # below are obtained once (prfs(bound) is cached), then the program assigns mpc.threshold = t before start():
+    # every sharing must have the degree of the threshold in force
+    configs += [(5, 1, 2), (5, 2, 1), (4, 1, 0)] + ([(7, 2, 3), (3, 1, 0)] if ctx.tier == 'thorough' else [])
     ctx.rule = ('case = (m, t, prss, type, program of %d ops, inputs, seed); every intermediate value gathered at all parties; '
                 'non-trivial when t >= 1' % ctx.n(10, 16))
     ctx.explanation = 'reachable_sharing theorem + exact share-level replay of inputs and multiplications + interpolation oracle'
     exprs, meta = [], []
     n_vals = 0
-    for (m, t) in configs:
-        for no_prss in (False, True):
+    for (m, t, t0) in configs:
+        for no_prss in ((False, True) if t0 is None else (False,)):
             for rep in range(ctx.n(2, 5)):
                 tname = ['secint16', 'secfld101', 'secint32', 'secfld_big', 'secfld101'][rep % 5] if rep < 5 else rng.choice(['secint16', 'secint32', 'secfld101', 'secfld_big'])
                 seed = rng.randrange(10**6)
@@ -69,7 +74,7 @@ def run(ctx):
                     prog_ops[-1] = 'recip'
                 picks = [(rng.randrange(10**6), rng.randrange(10**6), rng.randrange(-5, 6)) for _ in range(nops)]
                 inputs = [rng.choice([0, 1, -1, 2, 3, -7, 11]) for _ in range(m)]
-                sim = Sim(m, t, no_prss=no_prss, seed=seed)
+                sim = Sim(m, t if t0 is None else t0, no_prss=no_prss, seed=seed)
                 deal_log = [[] for _ in range(m)]
                 try:
                     # log every dealing from outside
@@ -88,6 +93,11 @@ def run(ctx):
                             return r
                         th.random_split = wrapped
                         sim.mods[i]['mpyc.runtime'].thresha.random_split = wrapped
+                    if t0 is not None:
+                        for mpc_i in sim.mpcs:
+                            for st_ in (mpc_i.SecInt(16), mpc_i.SecInt(32), mpc_i.SecFld(101), mpc_i.SecFld(modulus=2**61 - 1)):
+                                mpc_i.prfs(st_.field.order)
+                            mpc_i.threshold = t
                     if not all(x is True for x in sim.start()):
                         ctx.violation('start-failed m=%d t=%d' % (m, t), {'m': m, 't': t})
                         continue
